@@ -169,6 +169,12 @@ DevOp(s, r) ==
 \* flags, the MCR handle, the internal-register map, the device table (devices io_reset: the keyboard
 \* loses its interrupt-enable bit and its buffer, the display its buffer, a timer redraws its countdown)
 \* and the breakpoints are kept.
+\* the memory pattern of the adversarial machines of MC_Machine: word a holds a boundary address
+PatBoundary == <<0, 12287, 12288, 12289, 65022, 65023, 65024, 65026, 65030, 65532, 65534, 65535>>
+PatRd(b, a) == W(PatBoundary[(a % Len(PatBoundary)) + 1], IF b = 1 THEN 65535 ELSE 0)
+\* fill values of the Known strategies a history may switch to (index k; 0 = the strategy of the header)
+FillTab == <<4369, 8738, 0, 65535>>
+InitStep == 10000000
 FlagsOf(f) == [strict |-> B(f.strict), real |-> B(f.real), dbg |-> B(f.dbg), ignp |-> B(f.ignp)]
 BpOf(b) == [k |-> b.k, a |-> b.a, c |-> [k |-> b.c.k, v |-> b.c.v]]
 IoResetDev(d, draws) == CASE d.k = "kbd" -> [d EXCEPT !.ie = FALSE]
